@@ -81,6 +81,11 @@ def run(e: Engine, rep: Report):
     rep.rule('Q11', 'the scheduler compares due times with time.time() '
              'itself (no slack added to `now`)')
     q11(e, rep)
+    rep.rule('Q12', 'self.queued_ids holds ids: what it is updated with is '
+             'never the timetable or a piece of it (entries are '
+             '(timestamp, id) pairs - removing pairs from a set of ids '
+             'removes nothing)')
+    q12(e, rep)
     rep.floor('Q2', 3, 'timetable writers')
 
 
@@ -175,6 +180,12 @@ def _queued_writes(e: Engine, g) -> List[Node]:
                             path_of(t.value, n.frame) == 'self.queued'):
                         if n not in out:
                             out.append(n)
+        elif n.kind == 'stmt' and isinstance(n.ast, ast.Delete):
+            # del self.queued[:k]
+            if any(isinstance(t, ast.Subscript) and
+                   path_of(t.value, n.frame) == 'self.queued'
+                   for t in n.ast.targets):
+                out.append(n)
         elif n.kind == 'call':
             if any(path_of(a, n.frame) == 'self.queued'
                    for a in n.ast.args) and e.call_name(n) in (
@@ -578,6 +589,23 @@ def q5(e: Engine, rep: Report):
             pairs = [s2 for s2 in g.of_kind('stmt') if pair_stmt(s2)]
             # the kept part is the complement of the removed part
             for w in ws:
+                if isinstance(w.ast, ast.Delete):
+                    # del self.queued[:n] keeps self.queued[n:]
+                    t = w.ast.targets[0]
+                    okd = upper is not None and len(w.ast.targets) == 1 and \
+                        isinstance(t, ast.Subscript) and \
+                        isinstance(t.slice, ast.Slice) and \
+                        t.slice.lower is None and t.slice.step is None and \
+                        t.slice.upper is not None and \
+                        ast.unparse(t.slice.upper) == upper
+                    rep.evaluations += 1
+                    rep.check(okd, 'Q5', where, 'kept entries are the '
+                              'complement of the dispatched ones',
+                              '`%s` removes other entries than the '
+                              'dispatched self.queued[:%s]' % (
+                                  w.text(40), upper), loc=w.loc(),
+                              reason='deletes exactly the removed prefix')
+                    continue
                 v = _queued_value(w)
                 if isinstance(v, ast.Name) and pairs:
                     rd = common.reaching_defs(g, w, path_of(v, w.frame))
@@ -1119,6 +1147,76 @@ def q8(e: Engine, rep: Report):
 
 
 # -------------------------------------------------------------------- Q11
+def q12(e: Engine, rep: Report, rule: str = 'Q12'):
+    c = common.merged_class(e, QUEUE)
+    n = 0
+
+    def entries(x, fn, depth=0):
+        """does `x` denote the timetable, a slice of it, a copy of those,
+        or a local bound to one?"""
+        if depth > 4:
+            return False
+        if isinstance(x, ast.Attribute) and isinstance(x.value, ast.Name) \
+                and x.value.id == 'self' and x.attr == 'queued':
+            return True
+        if isinstance(x, ast.Subscript) and isinstance(x.slice, ast.Slice):
+            return entries(x.value, fn, depth + 1)
+        if isinstance(x, ast.Call) and isinstance(x.func, ast.Name) and \
+                x.func.id in ('list', 'tuple', 'set', 'frozenset', 'sorted',
+                              'reversed', 'iter') and len(x.args) == 1:
+            return entries(x.args[0], fn, depth + 1)
+        if isinstance(x, ast.Name):
+            ds = [a.value for a in walk_own(fn) if isinstance(a, ast.Assign)
+                  and any(isinstance(t, ast.Name) and t.id == x.id
+                          for t in a.targets)]
+            return bool(ds) and any(entries(d, fn, depth + 1) for d in ds)
+        return False
+
+    def entry_var(x, fn):
+        # the loop variable of a pass over the timetable, taken whole
+        if not isinstance(x, ast.Name):
+            return False
+        for lp in walk_own(fn):
+            if isinstance(lp, (ast.For, ast.comprehension)) and \
+                    isinstance(lp.target, ast.Name) and \
+                    lp.target.id == x.id and entries(lp.iter, fn):
+                return True
+        return False
+    for mname, m in sorted(c.methods.items()):
+        for x in walk_own(m.node):
+            arg, how = None, None
+            if isinstance(x, ast.Call) and \
+                    isinstance(x.func, ast.Attribute) and \
+                    ast.unparse(x.func.value) == 'self.queued_ids' and \
+                    x.args:
+                arg, how = x.args[0], x.func.attr
+            elif isinstance(x, (ast.Assign, ast.AugAssign)) and any(
+                    ast.unparse(t) == 'self.queued_ids'
+                    for t in (x.targets if isinstance(x, ast.Assign)
+                              else [x.target])):
+                arg, how = x.value, 'assignment'
+            if arg is None:
+                continue
+            n += 1
+            rep.evaluations += 1
+            rep.functions.add(m.qname)
+            bad = entries(arg, m.node) or (
+                how in ('add', 'discard', 'remove') and
+                entry_var(arg, m.node))
+            rep.check(not bad, rule, m.qname,
+                      'queued_ids %s with ids: `%s`' % (how, ' '.join(
+                          ast.unparse(x).split())[:50]),
+                      'self.queued_ids is updated (%s) with `%s`, which are '
+                      'timetable entries - (timestamp, id) pairs - not ids: '
+                      'the ids of the entries taken off the timetable stay '
+                      'in the set, _add_queued then rejects their re-queue '
+                      'as duplicates and the messages are never attempted '
+                      'again' % (how, ' '.join(ast.unparse(arg).split())[:40]),
+                      loc=m.loc(x), reason='argument is not the timetable')
+    if n < 3:
+        rep.error('anchor vanished: updates of self.queued_ids (%d < 3)' % n)
+
+
 def q11(e: Engine, rep: Report):
     """The scheduler compares due times with the CURRENT time: the `now`
     handed to _check_ready / _wait_ready is what time.time() returned,
